@@ -49,7 +49,12 @@ local function get_compiler_cflags(compileopts)
   if ccinfo.is_gcc and not ccinfo.is_clang and ccinfo.gnuc < 5 then
     cflags:add(' -std=gnu99')  -- enable C99 in old GCC compilers
   end
-  cflags:add(' '..ccflags.cflags_base)
+  local cflags_base = ccflags.cflags_base
+  if ccflags == cdefs.compilers_flags.cc and (ccinfo.is_gcc or ccinfo.is_clang) then
+    -- the generic entry selected for a GNU C compiler (`--cc cc`, CC=cc): integers must wrap there too
+    cflags_base = cdefs.compilers_flags.gcc.cflags_base
+  end
+  cflags:add(' '..cflags_base)
   if config.sanitize then
     if ccflags.cflags_sanitize and #ccflags.cflags_sanitize > 0 then
       cflags:add(' '..ccflags.cflags_sanitize)
